@@ -160,7 +160,7 @@ def domain_points(rng, t, d, n, outside=0.0):
     return rng.uniform(-0.7 * tx.BOX, 0.7 * tx.BOX, (n, d))
 
 
-def reparameterise(rng, who, kind, d, old_recipe):
+def reparameterise(rng, who, kind, d, old_recipe, alone=True):
     """Replace the parameters of `who`; returns the recipe of a history-free twin with the new parameters (None: not possible here)."""
     import menpo.shape as ms
     from menpo.transform.base import Alignment
@@ -195,6 +195,23 @@ def reparameterise(rng, who, kind, d, old_recipe):
                     return cls_(src_given.copy(), ms.PointCloud(p.copy()), kernel=kern(src_given.points.copy()), min_singular_val=msv)
                 return cls_(src_given.copy(), ms.PointCloud(p.copy()))
             return rec
+        parts = getattr(who, "_vf_parts", None)
+        if parts is not None and alone and isinstance(parts[0][0], (AbstractPWA, mt.ThinPlateSplines)) and id(who) in TWINS and len(TWINS[id(who)]) == 2:
+            # the first member of the chain (a warp) is retargeted through the object the caller still holds: the chain is then
+            # the chain of the retargeted warp and the other members
+            link = parts[0][0]
+            rec_link = reparameterise(rng, link, type(link).__name__, d, parts[0][1])
+            if rec_link is None or rec_link == "drop":
+                return None
+            rest = [p[1] for p in parts[1:]]
+            assemble = who._vf_assemble
+            if rng.random() < 0.5:
+                # (in between, the warp is used on its own)
+                try:
+                    link.apply(domain_points(rng, link, d, 3, 0.0))
+                except Exception:
+                    pass
+            return lambda: assemble([rec_link()] + [r() for r in rest])
         if not isinstance(who, mt.Homogeneous) or kind in ("TransformChain", "WithDims"):
             return None
         t2, recipe2 = tx.make(rng, kind, d)
@@ -293,7 +310,8 @@ def w_history(ctx, rng, i):
             x = prev.copy() if rng.random() < 0.5 else prev
         elif ev == "reparameterised":
             # the transform's parameters are replaced (parameter vector / new target): from now on only the new parameters count
-            new_recipe = reparameterise(rng, who, kind, d, TWINS[id(who)][1])
+            # (a chain and its copies hold the same member objects: a member is only retargeted while the chain is the only one alive)
+            new_recipe = reparameterise(rng, who, kind, d, TWINS[id(who)][1], alone=len(live) == 1)
             if new_recipe == "drop":
                 TWINS.pop(id(who), None)
                 live = [o for o in live if o is not who]
